@@ -66,13 +66,12 @@ else:
     if st:
         sys.exit("/repo is not clean: " + st)
 meta["checks"] = {}
-replays_before = set(os.listdir(os.path.join(V, "replays")))
 meta["checks_ran_against"] = "scratch worktree (VERIF_REPO)" if scratch else "/repo with the patch applied"
 try:
     subprocess.run(["git", "-C", target, "apply", patch], check=True)
     for c in checks:
         t0 = time.time()
-        e = dict(os.environ, VERIF_NOEVIDENCE="1")
+        e = dict(os.environ, VERIF_NOEVIDENCE="1", VERIF_REPLAYS_OUT=os.path.join(out, "replays-found"))
         if scratch:
             e["VERIF_REPO"] = target
         r = subprocess.run([os.path.join(V, "bin", "vcheck"), c, "quick"], env=e, stdout=subprocess.PIPE, stderr=subprocess.STDOUT, text=True)
@@ -91,10 +90,7 @@ try:
                 if not tracked:
                     os.remove(m.group(1))
 finally:
-    # replay files written by the checks while the change was in place are not findings about /repo
-    for fn in set(os.listdir(os.path.join(V, "replays"))) - replays_before:
-        if re.match(r"C\d\d-[0-9a-f]{12}\.json$", fn):
-            os.remove(os.path.join(V, "replays", fn))
+    shutil.rmtree(os.path.join(out, "replays-found"), ignore_errors=True)
     if scratch:
         subprocess.run(["git", "-C", "/repo", "worktree", "remove", "--force", target])
         shutil.rmtree(target, ignore_errors=True)
